@@ -23,7 +23,8 @@ Open Scope N_scope.
    anchors below are read off the source on every check (gen/GenMulti.v) *)
 Theorem C06_model_is_current :
   Current = Multi.Repaired /\ multi_get_range_is_floor_split = true /\ multi_job_flag_overrides = true /\
-  multi_dev_profile_compares_hasher = true /\ multi_hands_input_back = true /\ MULTI_EARLY_RETURNS = 1.
+  multi_dev_profile_compares_hasher = true /\ multi_hands_input_back = true /\
+  multi_dict_window_after_sanitize = true /\ MULTI_EARLY_RETURNS = 1.
 Proof. exact current_is_repaired. Qed.
 Print Assumptions C06_model_is_current.
 
@@ -67,7 +68,7 @@ Theorem C06_hasher_untruncated :
   forall pr p size has_opt,
   let dd := set_custom_dictionary Multi.Repaired pr p size has_opt in
   (dd_mode dd = HChecked \/ dd_mode dd = HSupplied) ->
-  has_opt = true /\ dd_custom dd = true /\ dd_offset dd = 0 /\ dd_size dd = size /\ 1 < size.
+  has_opt = true /\ dd_custom dd = true /\ dd_offset dd = 0 /\ dd_size dd = size /\ 0 < size.
 Proof. exact dict_supplied_untruncated. Qed.
 Print Assumptions C06_hasher_untruncated.
 
@@ -130,8 +131,8 @@ Theorem C06_hasher_H10 : forall pr ov t n i d st, 0 < t -> t * n < 2 ^ 64 -> i <
 Proof. exact handoff_h10. Qed.
 Print Assumptions C06_hasher_H10.
 
-(* a hasher that is kept unseen (prefix of at most one byte, quality 0/1 chunks near the start)
-   is empty, like a fresh one *)
+(* a hasher that is kept unseen (an ignored prefix near the start of the input) or compared for a
+   prefix no longer than the lookahead is empty, like a fresh one *)
 Theorem C06_hasher_kept_empty :
   forall pr ov t n i, 0 < t -> t * n < 2 ^ 64 -> i <= t -> i * n / t <= ov ->
   shared_ranges Multi.Repaired pr ov t n i = Bound.Ok [].
